@@ -19,6 +19,16 @@ TINY = 2.0 ** -20
 
 
 # ----------------------------------------------------------------- operations
+def COPY_DEEP(o):
+    import copy
+    return copy.deepcopy(o)
+
+
+def COPY_PICKLE(o):
+    import pickle
+    return pickle.loads(pickle.dumps(o))
+
+
 def ops_for(cls, unit=1.0):
     ops = []
     size_props = dict(
@@ -49,6 +59,9 @@ def ops_for(cls, unit=1.0):
         ops.append(("core:scale:volume", lambda o: setattr(o.polyhedron, "volume", 2.0 * float(o.polyhedron.volume))))
     if cls == "ConvexSpheropolygon":
         ops.append(("core:scale:area", lambda o: setattr(o.polygon, "area", 2.0 * float(o.polygon.area))))
+    # the history goes on with an independent copy of the shape (deep copy / pickle round trip): the copy is a shape like any other
+    ops.append(("copy:deepcopy", COPY_DEEP))
+    ops.append(("copy:pickle", COPY_PICKLE))
     bad = dict(Polygon="area", ConvexPolygon="perimeter", ConvexSpheropolygon="radius", Polyhedron="volume",
                ConvexPolyhedron="surface_area", ConvexSpheropolyhedron="radius")[cls]
     ops.append(("bad:" + bad, lambda o, p=bad: setattr(o, p, -1.0)))
@@ -232,13 +245,34 @@ def run(chk):
             if any(seq[:k] in failed_prefixes for k in range(1, len(seq))):
                 continue
             obj = base(cls)
+            chk._c03_originals = []
             hist = []
             ok = True
             for pos, oi in enumerate(seq):
                 name, fn = ops[oi]
                 hist.append(name)
                 snap = Z.state_snapshot(obj)
-                st, _ = C.excname(fn, obj)
+                if name.startswith("copy:"):
+                    st, cp = C.excname(fn, obj)
+                    if st == "ok":
+                        # the original is untouched by being copied, and by what happens to the copy afterwards (checked at the end of the step
+                        # for the original kept here); the history continues on the copy
+                        same, why = Z.snapshots_equal(snap, Z.state_snapshot(obj))
+                        if not same:
+                            chk.violation("copy-changed-the-original", dict(cls=cls, history=list(hist), attribute=why)); ok = False
+                        originals = getattr(chk, "_c03_originals", [])
+                        originals.append((obj, snap, list(hist)))
+                        chk._c03_originals = originals[-4:]
+                        obj = cp
+                else:
+                    st, _ = C.excname(fn, obj)
+                for o0, s0, h0 in getattr(chk, "_c03_originals", []):
+                    same0, why0 = Z.snapshots_equal(s0, Z.state_snapshot(o0))
+                    if not same0:
+                        chk.violation("copy-not-independent", dict(cls=cls, copied_after=h0, history=list(hist), attribute=why0,
+                                                                   what="an operation on the copy changed the shape it was copied from")); ok = False
+                        chk._c03_originals = []
+                        break
                 if name.startswith("bad:") or (cls == "Polyhedron/noflag" and name in ("sort_faces", "merge_faces")):
                     if st != "ValueError":
                         chk.violation("bad-target-not-refused", dict(cls=cls, history=list(hist), outcome=st)); ok = False
@@ -271,7 +305,11 @@ def replay(chk, rep):
     obj = base(cls)
     out = []
     for name in d["history"]:
-        st, _ = C.excname(ops[name], obj)
+        if name.startswith("copy:"):
+            st, cp = C.excname(ops[name], obj)
+            obj = cp if st == "ok" else obj
+        else:
+            st, _ = C.excname(ops[name], obj)
         out.append((name, st))
     ref = fresh_like(obj)
     a, b = full_observe(obj, unit), full_observe(ref, unit)
